@@ -437,7 +437,7 @@ Section Scripts2.
 
   Definition script (o : op) : prog :=
     match o with
-    | OAddFollowing x ns => add_following F x ns
+    | OAddFollowing x ns => add_following x ns
     | OAddPreceding x ns => add_preceding F x ns
     | OAppend p ns => append_children F p ns
     | OPrepend p ns => insert_children F p 0%Z ns
